@@ -43,6 +43,7 @@ type Engine struct {
 	prepOnce           sync.Once
 	Tier               string
 	SeqGo              bool     // run go statements synchronously at the spawn point
+	TrackLocks         bool     // track sync.Mutex/RWMutex state per path (harness flag "locks")
 	MapOrders          []string // functions (name substrings) whose small map ranges run in every order
 }
 
